@@ -16,6 +16,7 @@ Decided by spec/Anf.tla.
 import ast
 import json
 import os
+import re
 
 from .. import common, tlc
 from .. import c18_lang as L
@@ -199,14 +200,21 @@ def order_signature(prog, d):
     if j == len(olog):
         return ('c18:order:missing-effect:%s' % kinds[sids[j]],
                 'an effect of the original is missing after the transformation')
-    if j == len(slog):
-        return 'c18:order:extra-effect', 'the transformed function has an additional effect'
-    e = sids[j]
-    later = [x for x in range(j + 1, len(slog)) if slog[x] == olog[j]]
-    if not later:
-        return ('c18:dataflow:%s' % kinds[e],
+    def label_class(lab):
+        m = re.match(r'(bool|iter|enter|exit|set|del|T|F)\b', lab)
+        return m.group(1) if m else 'operation'
+    if j == len(slog) or olog[j] not in slog[j:]:
+        if olog[j] in slog[:j]:
+            return ('c18:order:repeated-effect:%s' % label_class(olog[j]),
+                    'the transformed function performs the effect %s once more than the original' % olog[j])
+        if j == len(slog):
+            return ('c18:order:extra-effect:%s' % label_class(olog[j]),
+                    'the transformed function has an additional effect %s' % olog[j])
+        return ('c18:dataflow:%s' % kinds[sids[j]],
                 'an operation is applied to other operands than in the original (effect %r instead of %r)' % (
                     olog[j], slog[j]))
+    e = sids[j]
+    later = [x for x in range(j + 1, len(slog)) if slog[x] == olog[j]]
     o = sids[later[0]]
     pm = L.parent_map(prog)
     ce, co = _chain(pm, e), _chain(pm, o)
@@ -222,7 +230,9 @@ def order_signature(prog, d):
     fe, pe, ke = branch(ce, de)
     fo, po, ko = branch(co, do)
     rel = '<' if pe < po else '>'
-    sig = 'c18:order:%s:%s%s%s:%s/%s' % (kinds[lca], fe, rel, fo, ke, ko)
+    # what characterises the root cause is WHERE the overtaking effect comes from: a later operand itself
+    # ('self'), something nested inside it ('inner') or the enclosing node's own effect ('own')
+    sig = 'c18:order:%s:%s%s%s:%s' % (kinds[lca], fe, rel, fo, ko)
     what = ('effect %s (%s of %s) must precede %s (%s of the same %s) but happens after it' % (
         slog[j], fe if ke == 'self' else 'inside ' + fe, kinds[lca], olog[j],
         fo if ko == 'self' else 'inside ' + fo, kinds[lca]))
@@ -289,13 +299,14 @@ def judge(case):
     for p in v['tmp']:
         out.append(('c18:temps:%s' % p, 'a generated temporary is %s' % p.replace('-', ' ')))
     for p, f, ck in v['anf']:
-        out.append(('c18:anf:%s:%s.%s:%s' % (cfgn, p, f, ck),
+        out.append(('c18:anf:%s:%s.%s' % (cfgn, p, f),
                     'the output is not in A-normal form for the configuration: a %s is left at %s.%s' % (ck, p, f)))
     if v['nd'] > 0 and not undecided:
         sig, what = order_signature(case.prog, v['d'])
-        if v['cc'] == 'partial' and sig.startswith('c18:order:') and sig.count(':') == 4:
+        if v['cc'] == 'partial' and sig.startswith('c18:order:') and sig.count(':') == 4 \
+                and sig.split(':')[2] not in ('repeated-effect', 'extra-effect', 'missing-effect'):
             # inherent to a configuration that names only some of the effectful operands
-            sig = 'c18:order:partial-config:' + sig.split(':')[2]
+            sig = 'c18:order:partial-config'
             what = 'under a partial configuration a named operand overtakes an operand left in place: ' + what
         if v['ex'] == 'reject':
             pass    # already reported as an accepted lazy construct
